@@ -788,6 +788,35 @@ def make_parse_format_zone(rng, mode):
             "nontrivial": True}
 
 
+def ctime_fixed_cases():
+    """leap days, 1 March and month ends in the ctime notation, shifted by
+    whole years and months (independent of the seed)"""
+    import datetime as _dt
+    fmt = "%a %b %d %H:%M:%S %Y"
+    for (y, m, d), otext, dt in (
+            ((2020, 3, 1), "P1Y", (1, 0, 0)), ((2021, 3, 1), "-P1Y",
+                                               (-1, 0, 0)),
+            ((2020, 2, 29), "P1Y", (1, 0, 0)), ((2020, 2, 29), "P4Y",
+                                                (4, 0, 0)),
+            ((2019, 12, 31), "P2M", (0, 2, 0)), ((2020, 1, 31), "P1M",
+                                                 (0, 1, 0)),
+            ((2020, 12, 31), "-P1Y", (-1, 0, 0)),
+            ((2021, 6, 15), "P1Y1M", (1, 1, 0)),
+            ((2020, 3, 31), "-P1M", (0, -1, 0)),
+            ((2020, 10, 1), "P1D", (0, 0, 86400))):
+        pt = {"rep": "cal", "date": (y, m, d), "sod": F(6 * 3600 + 7 * 60 + 8),
+              "off": 0}
+        res = R.pt_add("gregorian", pt, dt)
+        out = _dt.datetime(res["date"][0], res["date"][1], res["date"][2],
+                           6, 7, 8).strftime(fmt)
+        text = _dt.datetime(y, m, d, 6, 7, 8).strftime(fmt)
+        yield {"op": "run", "argv": [text, "--offset=" + otext], "env": {},
+               "local": [0, 0], "expect": {"stdout": out + "\n"},
+               "classes": ["shift/ctime-notation",
+                           "shift/ctime-notation-nominal-offset"],
+               "nontrivial": True}
+
+
 def make_ctime(rng):
     """the documented ctime notation (Gregorian, C locale): read, shifted -
     also by months and years from leap days and month ends - and printed
@@ -959,6 +988,10 @@ def run_child(ctx, case):
 
 def workload(ctx, repo):
     rng = ctx.rng
+    if ctx.worker == 0:
+        for case in ctime_fixed_cases():
+            ctx.case = case
+            run_case(ctx, repo, case)
     n = 2800 if ctx.tier == "quick" else 9000
     kept = []
     for k in range(n):
